@@ -61,24 +61,27 @@ theorem serial_order_valid (D : Dev σ) (progs : List Prog) (sched : List Nat) (
     ((run true D progs sched).finished.map (·.1)).filter (fun k => k.1 == i) = (List.range c.pc).map (fun k => (i, k)) :=
   ov_run D progs sched i c hc
 
-/-- **own output**: if every operation reads up to its end (no call raises, last call is a read) then
-    on a causal device every finished operation returned normally and its reads, concatenated, are
-    exactly what the device answers to *its own* writes, the device having seen nothing but the complete
-    writes of the operations that finished before it — under every schedule, at every point. -/
-theorem own_output (D : Dev σ) (progs : List Prog) (hclean : ∀ key, Drains (opOf progs key)) (sched : List Nat) :
-    OwnOutput D progs (run true D progs sched).finished := by
-  have h := sinv_run D progs sched
-  have hs := (serial_own D progs hclean (orderOf (run true D progs sched))).2.2.2
-  rw [h] at hs
-  unfold complete at hs
-  split at hs
-  · exact hs
-  · split at hs
-    · exact hs
-    · exact ownOutput_prefix D progs _ _ hs
+/-- **own output, before the first failure** (the clause the check's oracle evaluates): if the first `n`
+    finished operations all read up to their end (no call raises, last call is a read) — whatever the
+    later ones do — then on a causal device each of them returned normally and its reads, concatenated,
+    are exactly what the device answers to *its own* writes, the device having seen nothing but the
+    complete writes of the operations that finished before it.  Every schedule, every point. -/
+theorem own_output_before_first_failure (D : Dev σ) (progs : List Prog) (sched : List Nat) (n : Nat)
+    (hpre : ∀ e ∈ (run true D progs sched).finished.take n, Drains (opOf progs e.1)) :
+    OwnOutput D progs ((run true D progs sched).finished.take n) :=
+  ownOutput_take_of_sinv D progs _ (sinv_run D progs sched) n hpre
 
-/-- **lock released**: a step that ends an operation — last call done, or a call raised at any
-    position — leaves the lock free.  (`finished` grows exactly when an operation ends.) -/
+/-- **own output, PARTIAL**: only for programs in which NO call fails anywhere (`∀ key, Drains`).  The
+    statement without that hypothesis is false: `own_output_after_failure_refuted`. -/
+theorem own_output_partial (D : Dev σ) (progs : List Prog) (hclean : ∀ key, Drains (opOf progs key)) (sched : List Nat) :
+    OwnOutput D progs (run true D progs sched).finished := by
+  have h := own_output_before_first_failure D progs sched (run true D progs sched).finished.length
+    (fun e _ => hclean e.1)
+  rwa [List.take_length] at h
+
+/-- **lock released** (TRUE BY CONSTRUCTION of `finishOp`, see `lock_released_src` for the tie to the source): a
+    step that ends an operation — last call done, or a call raised at any position — leaves the lock free.
+    (`finished` grows exactly when an operation ends.) -/
 theorem lock_released (D : Dev σ) (progs : List Prog) (sched : List Nat) (i : Nat)
     (hend : (step true D progs (run true D progs sched) i).finished.length
               = (run true D progs sched).finished.length + 1) :
@@ -158,7 +161,10 @@ theorem async_refines (locking : Bool) (D : Dev σ) (progs : List Prog) (sched :
   obtain ⟨l, hl⟩ := foldl_stepAsync_eq locking D progs sched (init D progs)
   exact ⟨l, hl⟩
 
-/-! ### histories in which callers give up while WAITING for the lock (task cancelled / timed out at the lock) -/
+/-! ### histories in which callers give up while WAITING for the lock
+    `cancel` = task.cancel() ONLY; `timeout` = the timeout decorator expiring there: cancel + transport.close();
+    `close` = the transport closed by a thread's timeout handler.  Safety holds for all of them; serial equivalence
+    only for histories without `timeout` / `close` (the close hits the holder in the middle of its operation). -/
 
 /-- `run` is the special case without cancel events -/
 theorem runE_of_run (releases locking : Bool) (D : Dev σ) (progs : List Prog) (sched : List Nat) :
@@ -169,13 +175,14 @@ theorem runE_of_run (releases locking : Bool) (D : Dev σ) (progs : List Prog) (
   | nil => rfl
   | cons i rest ih => simp only [List.map_cons, List.foldl_cons]; exact ih _
 
-/-- a cancelled waiter abandons its operation without touching lock, wire, device or the outcome log -/
+/-- a cancelled waiter (task.cancel() ONLY — not a timeout, see `timeout_closes_transport`) abandons its
+    operation without touching lock, wire, device or the outcome log -/
 theorem cancel_keeps_lock (progs : List Prog) (s : St σ) (i : Nat) :
     (cancelWaiting false progs s i).lock = s.lock ∧ (cancelWaiting false progs s i).world = s.world ∧
     (cancelWaiting false progs s i).finished = s.finished := by
   rcases cancel_cases false progs s i with he | ⟨c, _, _, he⟩ <;> rw [he] <;> simp
 
-/-- **mutual exclusion** for every history of run / cancel-while-waiting events -/
+/-- **mutual exclusion** for every history of run / cancel / timeout-at-the-lock / close events -/
 theorem mutual_exclusion_cancel (D : Dev σ) (progs : List Prog) (evs : List SEv) (i j : Nat) (ci cj : Caller)
     (hi : (runE false true D progs evs).callers[i]? = some ci) (hj : (runE false true D progs evs).callers[j]? = some cj)
     (hci : ci.cur.isSome = true) (hcj : cj.cur.isSome = true) :
@@ -186,7 +193,7 @@ theorem mutual_exclusion_cancel (D : Dev σ) (progs : List Prog) (evs : List SEv
   rw [h1] at h2
   exact ⟨by cases h2; rfl, h1⟩
 
-/-- **no interleaving** for every history of run / cancel-while-waiting events -/
+/-- **no interleaving** for every history of run / cancel / timeout-at-the-lock / close events -/
 theorem no_interleave_cancel (D : Dev σ) (progs : List Prog) (evs : List SEv) (a b c : Nat)
     (hc : c < (runE false true D progs evs).world.wire.length) (hab : a < b) (hbc : b < c) :
     let tr := (runE false true D progs evs).world.wire
@@ -208,6 +215,13 @@ theorem lock_released_cancel (D : Dev σ) (progs : List Prog) (evs : List SEv) (
     simp only [stepE] at hend
     rw [this] at hend
     omega
+  | close => simp [stepE, closeW] at hend
+  | timeout i =>
+    have := (cancel_keeps_lock progs (runE false true D progs evs) i).2.2
+    simp only [stepE, timeoutWaiting] at hend
+    split at hend
+    · simp only [closeW] at hend; rw [this] at hend; omega
+    · omega
   | run i =>
     simp only [stepE] at hend ⊢
     have hcase := step_cases true D progs (runE false true D progs evs) i
@@ -236,12 +250,14 @@ theorem lock_free_iff_idle_cancel (D : Dev σ) (progs : List Prog) (evs : List S
       obtain ⟨c, hc, hs⟩ := h.holder i hl
       rw [hall i c hc] at hs; simp at hs
 
-/-- **serial equivalence** for such histories: cancelled operations never ran and are in no log -/
-theorem serializable_cancel (D : Dev σ) (progs : List Prog) (evs : List SEv)
+/-- **serial equivalence** for histories of run / cancel events ONLY (`SEv.quiet`: no timeout, no close):
+    cancelled operations never ran and are in no log.  NOT claimed for histories with `timeout` / `close`:
+    there the holder's operation is cut short by somebody else's timeout (`timeout_kills_holder`). -/
+theorem serializable_cancel (D : Dev σ) (progs : List Prog) (evs : List SEv) (hquiet : ∀ ev ∈ evs, ev.quiet = true)
     (hq : (runE false true D progs evs).lock = none) :
     serial D progs ((runE false true D progs evs).finished.map (·.1)) =
       ((runE false true D progs evs).world, (runE false true D progs evs).finished) := by
-  have h := sinv_runE D progs evs
+  have h := sinv_runE D progs evs hquiet
   simp only [SInv, orderOf, complete, hq, List.append_nil] at h
   exact h
 
@@ -250,6 +266,49 @@ theorem async_refines_cancel (releases locking : Bool) (D : Dev σ) (progs : Lis
     ∃ evs', runEAsync releases locking D progs evs = runE releases locking D progs evs' := by
   obtain ⟨l, hl⟩ := foldl_stepEAsync_eq releases locking D progs evs (init D progs)
   exact ⟨l, hl⟩
+
+/-- a timeout at the lock is NOT side-effect free: if task `i` was waiting, the shared transport is closed -/
+theorem timeout_closes_transport (progs : List Prog) (s : St σ) (i : Nat) (hw : waiting progs s i = true) :
+    (timeoutWaiting false progs s i).world.closed = true ∧ (timeoutWaiting false progs s i).lock = s.lock := by
+  unfold timeoutWaiting
+  simp only [hw, if_true, closeW]
+  exact ⟨trivial, (cancel_keeps_lock progs s i).1⟩
+
+/-- **somebody else's timeout kills the holder's operation**: once the transport is closed, the holder's
+    next transport call raises whatever it is — the operation ends `ok = false` and (with-statement) the
+    lock is freed -/
+theorem timeout_kills_holder (D : Dev σ) (progs : List Prog) (s : St σ) (i : Nat) (c : Caller) (st : Step)
+    (rest : List Step) (hc : s.callers[i]? = some c) (hcur : c.cur = some (st :: rest)) (hcl : s.world.closed = true) :
+    step true D progs s i = finishOp s (perform D s.world i c.pc st).1 i c ⟨false, c.reads⟩ ∧
+    (step true D progs s i).lock = none := by
+  have hr : raises s.world st = true := by simp [raises, hcl]
+  unfold step
+  simp [hc, hcur, hr, finishOp]
+
+/-- a closed transport stays closed (nothing in a channel operation re-opens it) -/
+theorem closed_stays (D : Dev σ) (progs : List Prog) (s : St σ) (ev : SEv) (hcl : s.world.closed = true) :
+    (stepE false true D progs s ev).world.closed = true := by
+  cases ev with
+  | close => rfl
+  | cancel i =>
+    have := (cancel_keeps_lock progs s i).2.1
+    simp only [stepE]; rw [this]; exact hcl
+  | timeout i =>
+    simp only [stepE, timeoutWaiting]
+    split
+    · rfl
+    · exact hcl
+  | run i =>
+    simp only [stepE]
+    have hcase := step_cases true D progs s i
+    generalize step true D progs s i = s' at hcase
+    cases hcase with
+    | skip => exact hcl
+    | empty c hc hcur hop hfree => exact hcl
+    | enter c st rest hc hcur hop hfree => exact hcl
+    | fail c st rest hc hcur hf => simp only [finishOp]; rw [perform_closed]; exact hcl
+    | last c st hc hcur hf => simp only [finishOp]; rw [perform_closed]; exact hcl
+    | cont c st rest hc hcur hf hne => simp only [contSt]; rw [perform_closed]; exact hcl
 
 /-! ### contrast: channel_lock off -/
 
@@ -315,6 +374,12 @@ theorem coverage_operations :
         operations.contains (f, m) && (table.any fun r => r.file == f && r.method == m)) = true ∧
     (operations.all fun o => table.any fun r => r.file == o.1 && r.method == o.2) = true := by decide +kernel
 
+/-- **one operation = one critical section** (the model's central assumption, `Lock.lean` header): every public
+    operation executes exactly ONE `with self._channel_lock()` statement (its own or a private helper's) and none
+    sits under a for/while — a lock taken per loop iteration or a section split in two fails here -/
+theorem one_critical_section : (lockSections.all fun r => r.2.2.1 == 1 && !r.2.2.2) = true ∧
+    lockSections.map (fun r => (r.1, r.2.1)) = operations := by decide +kernel
+
 /-- the lock is taken by a `with` statement inside a (async)contextmanager (released on every exit —
     the `finishOp` of the model), it is a plain non re-entrant `threading.Lock` / `asyncio.Lock`
     created only when `channel_lock` is set, and the setting is off by default -/
@@ -330,8 +395,9 @@ theorem lock_context :
 theorem failing_call_releases (D : Dev σ) (progs : List Prog) (s : St σ) (i : Nat) (c : Caller) (st : Step)
     (rest : List Step) (hc : s.callers[i]? = some c) (hcur : c.cur = some (st :: rest)) (hf : st.fails = true) :
     (step true D progs s i).lock = none := by
+  have hr : raises s.world st = true := by simp [raises, hf]
   unfold step
-  simp [hc, hcur, hf, finishOp]
+  simp [hc, hcur, hr, finishOp]
 
 namespace PoolTimeout
 
@@ -451,18 +517,97 @@ theorem pool_timeout_closes_before_join :
     handleTimeoutInsidePoolBlock = true ∧ handleTimeoutClosesBeforeRaise = true := by decide
 
 open Scrapli.Gen.LockCoverage in
-/-- hence, for the source as it is and a transport whose close() wakes a blocked read, a timed-out
-    operation ends with the channel lock free -/
-theorem timed_out_op_releases_lock_src (pre : List Bool) :
-    (trun ⟨handleTimeoutInsidePoolBlock, true⟩ (pre ++ fairTail)).pc = .raised ∧
-    (trun ⟨handleTimeoutInsidePoolBlock, true⟩ (pre ++ fairTail)).lock = false :=
-  let h := timed_out_op_releases_lock ⟨handleTimeoutInsidePoolBlock, true⟩ pool_timeout_closes_before_join.1 rfl pre
-  ⟨h.1, h.2.1⟩
+/-- `transport.close()` in `_handle_timeout` is guarded by exactly `not Settings.NO_TERMINATE_ON_TIMEOUT` (GENERATED) -/
+theorem pool_timeout_close_guard : handleTimeoutCloseGuard = "not Settings.NO_TERMINATE_ON_TIMEOUT" := by decide
+
+open Scrapli.Gen.LockCoverage in
+/-- hence, for the source as it is, a timed-out operation ends with the channel lock free — UNDER the two
+    explicit hypotheses that are not facts about this code: `noTerminate = false` (the setting
+    NO_TERMINATE_ON_TIMEOUT is off, so the transport really is closed) and `closeWakes = true` (close() of this
+    transport wakes a blocked read — a per-transport fact that C07 measures).  `TOpts.closeWakes` of the model
+    is their conjunction with the generated "close precedes raise". -/
+theorem timed_out_op_releases_lock_src (noTerminate closeWakes : Bool) (h1 : noTerminate = false) (h2 : closeWakes = true)
+    (pre : List Bool) :
+    (trun ⟨handleTimeoutInsidePoolBlock, handleTimeoutClosesBeforeRaise && !noTerminate && closeWakes⟩ (pre ++ fairTail)).pc = .raised ∧
+    (trun ⟨handleTimeoutInsidePoolBlock, handleTimeoutClosesBeforeRaise && !noTerminate && closeWakes⟩ (pre ++ fairTail)).lock = false := by
+  subst h1; subst h2
+  have h := timed_out_op_releases_lock ⟨handleTimeoutInsidePoolBlock, handleTimeoutClosesBeforeRaise && !false && true⟩
+    pool_timeout_closes_before_join.1 (by simp [pool_timeout_closes_before_join.2]) pre
+  exact ⟨h.1, h.2.1⟩
+
+open Scrapli.Gen.LockCoverage in
+/-- with NO_TERMINATE_ON_TIMEOUT set (or a transport whose close() does not wake the read) the worker is never
+    woken: the lock stays held under every schedule (C07's open finding; outside C19's claim) -/
+theorem no_terminate_never_releases (closeWakes : Bool) (sched : List Bool) :
+    (trun ⟨handleTimeoutInsidePoolBlock, handleTimeoutClosesBeforeRaise && !true && closeWakes⟩ sched).lock = true :=
+  close_must_wake _ (by simp) sched
 
 /-- non-vacuity: the straightforward schedule (timeout, close, worker wakes, join) -/
 example : trun ⟨true, true⟩ [true, true, false, true] = ⟨.raised, true, false, false⟩ := by decide
 
 end PoolTimeout
+
+/-! ### own output after a failure: false, and what "release on every exit" rests on -/
+
+/-- the reviewer's witness: caller 0's read of its echo raises, caller 1 then runs `send_input "show b"` -/
+def exFailProgs : List Prog := [[[exW "show a", ⟨.read, true⟩]], [[exW "show b", exR, exW "\n", exR]]]
+
+/-- **own output is FALSE after a failure** (in the model, and in the code: a failed / cancelled operation
+    leaves its half-typed line and unread bytes on the still-open connection): caller 1's operation, which
+    itself reads to its end, gets `show ashow b` + the output of the concatenated command, not the answer
+    to its own writes.  So `own_output_partial` cannot drop its hypothesis, and `own_output_before_first_failure`
+    is the strongest statement of this shape. -/
+theorem own_output_after_failure_refuted :
+    ¬ (∀ (progs : List Prog) (sched : List Nat) (j : Nat) (key : Nat × Nat) (o : Outcome),
+        (run true exDev progs sched).finished[j]? = some (key, o) → Drains (opOf progs key) →
+        o.ok = true ∧ o.reads.flatten =
+          (feed exDev (devAfter exDev progs (((run true exDev progs sched).finished.take j).map (·.1)))
+            (writesOf (opOf progs key))).2) := by
+  intro h
+  have hd : Drains (opOf exFailProgs (1, 0)) :=
+    ⟨by decide, .inr ⟨[exW "show b", exR, exW "\n"], false, rfl⟩⟩
+  have h1 := (h exFailProgs [0, 0, 0, 1, 1, 1, 1, 1, 1] 1 (1, 0)
+    ⟨true, [ofString "show ashow b", ofString "\nout<show ashow b>\nr1#"]⟩ (by decide +kernel) hd).2
+  revert h1
+  decide +kernel
+
+/-- … and concretely what caller 1 gets -/
+example : ((run true exDev exFailProgs [0, 0, 0, 1, 1, 1, 1, 1, 1]).finished.map fun e => (e.1, e.2.ok, e.2.reads.flatten)) =
+    [((0, 0), false, []), ((1, 0), true, ofString "show ashow b\nout<show ashow b>\nr1#")] := by decide +kernel
+
+/-- `stepR true` is `step`: the model's "release on every exit" is the with-statement semantics, by construction -/
+theorem runR_true (locking : Bool) (D : Dev σ) (progs : List Prog) (sched : List Nat) :
+    runR true locking D progs sched = run locking D progs sched := rfl
+
+/-- **without release-on-raise the next caller is blocked for ever** (variant `relOnRaise = false`: `acquire()`; body;
+    `release()` without with / try-finally): after caller 0's failing call nobody is inside an operation, yet the
+    lock is still taken and caller 1 never starts, however long the fair schedule -/
+theorem no_release_on_raise_deadlocks :
+    let s := runR false true exDev exFailProgs ([0, 0, 0] ++ (List.replicate 20 [0, 1]).flatten)
+    s.lock = some 0 ∧ (s.callers.map (·.cur)) = [none, none] ∧ s.finished.map (·.1) = [(0, 0)] ∧
+    (s.callers[1]?.map (·.pc)) = some 0 := by
+  decide +kernel
+
+open Scrapli.Gen.LockCoverage in
+/-- **lock released, tied to the source**: `lock_released` is true of `step` BY CONSTRUCTION (`finishOp` frees the
+    lock; its three cases close by `rfl`).  What makes it a statement about scrapli is the GENERATED `lockContext`:
+    both `_channel_lock` implementations take the lock by a with-statement inside a (async)contextmanager, so the
+    semantics of the source is `stepR (lockContext.all (·.2))` = `stepR true` = `step`; were the flag false, the
+    deadlock above is what the model predicts. -/
+theorem lock_released_src (D : Dev σ) (progs : List Prog) (sched : List Nat) (i : Nat)
+    (hend : (stepR (lockContext.all (·.2)) true D progs (runR (lockContext.all (·.2)) true D progs sched) i).finished.length
+              = (runR (lockContext.all (·.2)) true D progs sched).finished.length + 1) :
+    (stepR (lockContext.all (·.2)) true D progs (runR (lockContext.all (·.2)) true D progs sched) i).lock = none := by
+  have hflag : lockContext.all (·.2) = true := by decide
+  rw [hflag] at hend ⊢
+  exact lock_released D progs sched i hend
+
+/-- a timeout at the lock in action (asyncio granularity): task 0 inside `send_input`, task 1's timeout expires while
+    it waits: the transport is closed, task 0's next read raises, its operation fails, the lock is free, task 1 is gone -/
+example : let s := runEAsync false true exDev exProgs [.run 0, .run 1, .timeout 1, .run 0]
+    s.world.closed = true ∧ s.lock = none ∧ s.finished.map (fun e => (e.1, e.2.ok)) = [((0, 0), false)] ∧
+    s.world.wire.map (fun e => (e.caller, e.failed)) = [(0, false), (0, true)] := by
+  decide +kernel
 
 /-! ### non-vacuity of the hypotheses -/
 
